@@ -24,6 +24,21 @@ History format (JSON):
   optional "globals": [G, ...]  caller-owned global_config dicts, each built ONCE per process; a dict spec with
       "@gref": k passes THAT object (instead of a private "@global") with every call made through the spec, so one
       global configuration is shared by calls of differing syntaxes and types, as an editor plugin does.
+  via reorder (optional "perm": n): like copy (equal, distinct, shares the named cache dict), but every mapping of
+      the configuration (the dict itself, snippets, options, variables, context, a private "@global") is built in
+      ANOTHER KEY ORDER (harness/history_order.py): an equal argument in the sense of ==.
+  optional "op" of a call, the TWO-STEP ROUTE expand() itself is made of (emmet/__init__.py: expand_markup =
+      stringify_markup(markup_abbreviation(abbr, config), config), likewise for stylesheets):
+      "op": "parse", "tree": k      tree k of the caller := emmet.markup_abbreviation(abbr, config) or
+                                    emmet.stylesheet_abbreviation(abbr, config) (by the type of the configuration);
+                                    the caller keeps the tree until the history ends or tree k is parsed again
+      "op": "stringify", "tree": k  emmet.stringify_markup / stringify_stylesheet(tree k, config): one more write-out
+                                    of the SAME tree object ("abbr" is ignored; outcome ["skipped"] when tree k does
+                                    not exist because its parse raised).  The configuration named by via/d is turned
+                                    into a Config by the caller when it is a dict (these functions take a Config).
+      The reference of a stringify call is the two steps made alone in a pristine process: the governing parse call
+      (the last "parse" of tree k before it) with freshly built arguments, then ONE write-out with freshly built
+      arguments; when both steps name the same configuration also expand(abbr of the parse, that configuration).
 """
 import copy
 import gc
@@ -36,6 +51,8 @@ import weakref
 
 import emmet  # noqa: E402  (import only)
 from emmet.config import Config  # noqa: E402
+
+from history_order import reorder  # noqa: E402  (harness/history_order.py: no dependencies)
 
 
 # ------------------------------------------------------------------ materialising specs
@@ -147,17 +164,32 @@ def clen(o):
         return -1
 
 
+WEAK = (weakref.WeakKeyDictionary, weakref.WeakValueDictionary)
+WEAK_NAMES = set()   # names (as in module_state) of the weak containers of emmet.*
+
+
 def module_state():
     """{name: (len, digest)} of every module-level container, function default and class attribute in emmet.*"""
+    out = _module_state()
+    return out
+
+
+def _note(out, name, v):
+    out[name] = (clen(v), fp(v))
+    if isinstance(v, WEAK):
+        WEAK_NAMES.add(name)
+
+
+def _module_state():
     out = {}
 
     def fn_defaults(prefix, f):
         for i, dv in enumerate(f.__defaults__ or ()):
             if isinstance(dv, CONTAINERS):
-                out['%s.__defaults__[%d]' % (prefix, i)] = (clen(dv), fp(dv))
+                _note(out, '%s.__defaults__[%d]' % (prefix, i), dv)
         for k, dv in (f.__kwdefaults__ or {}).items():
             if isinstance(dv, CONTAINERS):
-                out['%s.__kwdefaults__[%s]' % (prefix, k)] = (clen(dv), fp(dv))
+                _note(out, '%s.__kwdefaults__[%s]' % (prefix, k), dv)
 
     for mname in sorted(sys.modules):
         if mname != 'emmet' and not mname.startswith('emmet.'):
@@ -170,7 +202,7 @@ def module_state():
                 continue
             full = mname + '.' + name
             if isinstance(v, CONTAINERS):
-                out[full] = (clen(v), fp(v))
+                _note(out, full, v)
             elif isinstance(v, type(module_state)) and getattr(v, '__module__', None) == mname:
                 fn_defaults(full, v)
             elif isinstance(v, type) and getattr(v, '__module__', None) == mname:
@@ -178,7 +210,7 @@ def module_state():
                     if an.startswith('__'):
                         continue
                     if isinstance(av, CONTAINERS):
-                        out[full + '.' + an] = (clen(av), fp(av))
+                        _note(out, full + '.' + an, av)
                     f = getattr(av, '__func__', av)
                     if isinstance(f, type(module_state)):
                         fn_defaults(full + '.' + an, f)
@@ -234,18 +266,39 @@ def open_snippet_levels(tb):
     return max(0, n - 1)   # the innermost frame is the one whose body failed to parse: it was not open yet
 
 
-def do_call(abbr, cfg_arg, use_default=False, g=None):
-    """the code path of emmet.expand; returns (outcome, kind, stage)"""
+def as_config(cfg_arg, g):
+    """what a caller of the two-step functions does with a configuration dict: they take a Config"""
+    if isinstance(cfg_arg, Config):
+        return cfg_arg
+    return mk_config(cfg_arg if cfg_arg is not None else {}, g)
+
+
+def do_call(abbr, cfg_arg, use_default=False, g=None, op='expand', trees=None, tree=None):
+    """the code path of emmet.expand (or one step of the two-step route); returns (outcome, kind, stage)"""
     kind = '?'
     OPEN_LEVELS[0] = 0
     try:
-        if use_default:
-            kind = 'markup'
-            return ['ok', emmet.expand(abbr)], kind, 0
         if isinstance(cfg_arg, Config):
             kind = cfg_arg.type if cfg_arg.type == 'stylesheet' else 'markup'
+        elif use_default or cfg_arg is None:
+            kind = 'markup'
         else:
             kind = 'stylesheet' if cfg_arg.get('type', 'markup') == 'stylesheet' else 'markup'
+        if op == 'parse':
+            trees.pop(tree, None)
+            cfg = as_config(cfg_arg, g)
+            f = emmet.stylesheet_abbreviation if kind == 'stylesheet' else emmet.markup_abbreviation
+            trees[tree] = (f(abbr, cfg), kind)
+            return ['ok', ''], kind, 0
+        if op == 'stringify':
+            if tree not in trees:
+                return ['skipped'], kind, 0
+            t, kind = trees[tree]
+            cfg = as_config(cfg_arg, g)
+            f = emmet.stringify_stylesheet if kind == 'stylesheet' else emmet.stringify_markup
+            return ['ok', f(t, cfg)], kind, 0
+        if use_default:
+            return ['ok', emmet.expand(abbr)], kind, 0
         if g is not None and not isinstance(cfg_arg, Config):
             return ['ok', emmet.expand(abbr, cfg_arg, g)], kind, 0
         return ['ok', emmet.expand(abbr, cfg_arg)], kind, 0
@@ -288,6 +341,15 @@ def run_history(h):
     base_live = live_instances()
     res = {'calls': [], 'problems': []}
     _run_calls(h, res, base_mod)
+    # weak containers of the library may hold entries for nodes of a parsed tree the CALLER still holds (two-step route);
+    # they are judged here, when the caller has dropped its trees: nothing may be left
+    gc.collect()
+    end_mod = module_state()
+    for name in sorted(WEAK_NAMES):
+        a, b = base_mod.get(name), end_mod.get(name)
+        if a != b and res.get('held_trees'):
+            res['problems'].append({'what': 'library-state-changed', 'call': len(h['calls']), 'where': name + ' (after the caller dropped its parsed trees)',
+                                    'len_before': a and a[0], 'len_after': b and b[0], 'grew': bool(a and b and b[0] > a[0])})
     # nothing of the calls stays alive once the caller has dropped everything it owns (all locals of _run_calls)
     live = live_instances()
     for k in sorted(set(live) | set(base_live)):
@@ -304,6 +366,7 @@ def _run_calls(h, res, base_mod):
     globs = [shared[s['@gref']] if s.get('@gref') is not None else build_global(s) for s in h['dicts']]
     objs = [mk_config(dicts[i], globs[i]) for i in h.get('objs', [])]
     prev_mod = base_mod
+    trees = {}   # caller-owned parsed trees of the two-step route
     seq = list(h['calls']) + [h['probe']]
     for ci, c in enumerate(seq):
         via = c['via']
@@ -316,9 +379,14 @@ def _run_calls(h, res, base_mod):
         elif via == 'obj':
             arg = objs[c['d']]
             watched = [('dict', h['objs'][c['d']], arg.user_config)]
-        elif via in ('copy', 'nocache'):
-            arg = build_dict(h['dicts'][c['d']], caches, with_cache=(via == 'copy'))
+        elif via in ('copy', 'nocache', 'reorder'):
+            spec = h['dicts'][c['d']]
             g = globs[c['d']]
+            if via == 'reorder':
+                spec = reorder(spec, c.get('perm', 0))
+                if g is not None and h['dicts'][c['d']].get('@gref') is None:
+                    g = reorder(g, c.get('perm', 0))   # a private global configuration: equal, other key order
+            arg = build_dict(spec, caches, with_cache=(via != 'nocache'))
             transient = arg
             watched = [('transient', c['d'], arg)]
         else:
@@ -331,8 +399,10 @@ def _run_calls(h, res, base_mod):
                 watched.append(('shared_global_config', gk, sg))
         before = [copy.deepcopy(strip(w[2])) for w in watched]
         obj_before = [fp(config_view(o)) for o in objs]
-        out, kind, stage = do_call(c['abbr'], arg, use_default=(via == 'default'), g=g)
-        rec = {'out': out, 'kind': kind, 'stage': stage, 'open_levels': OPEN_LEVELS[0]}
+        op = c.get('op', 'expand')
+        held = bool(trees)
+        out, kind, stage = do_call(c.get('abbr', ''), arg, use_default=(via == 'default'), g=g, op=op, trees=trees, tree=c.get('tree'))
+        rec = {'out': out, 'kind': kind, 'stage': stage, 'open_levels': OPEN_LEVELS[0], 'op': op}
         # caller's dict deep equality (also after a raising call)
         for (wk, wi, wd), b in zip(watched, before):
             if strip(wd) != b:
@@ -362,8 +432,13 @@ def _run_calls(h, res, base_mod):
             rec['bem_after_gc'] = -1
         # library state
         cur = module_state()
+        held = held or bool(trees)
+        if held:
+            res['held_trees'] = True
         for name in sorted(set(cur) | set(prev_mod)):
             a, b = prev_mod.get(name), cur.get(name)
+            if a != b and held and name in WEAK_NAMES:
+                continue   # entries keyed (weakly) by nodes of a tree the caller holds: judged when the trees are dropped
             if a != b:
                 res['problems'].append({'what': 'library-state-changed', 'call': ci, 'where': name,
                                         'len_before': a and a[0], 'len_after': b and b[0],
@@ -372,19 +447,48 @@ def _run_calls(h, res, base_mod):
         res['calls'].append(rec)
 
 
-def run_single(h, c, variant):
-    """one call alone, all arguments freshly built; variant 'cache' (fresh empty cache where the call names one)
-    or 'nocache' (no cache at all)"""
-    caches = [dict() for _ in range(h.get('ncaches', 0))]
+def fresh_arg(h, c, caches, variant):
+    """the arguments call `c` names, freshly built: (config dict / Config / None, global_config / None)"""
     via = c['via']
     if via == 'default':
-        out, kind, stage = do_call(c['abbr'], None, use_default=True)
-    else:
-        di = h['objs'][c['d']] if via == 'obj' else c['d']
-        d = build_dict(h['dicts'][di], caches, with_cache=(variant == 'cache' and via != 'nocache'))
-        g = build_global(h['dicts'][di], h)
-        arg = mk_config(d, g) if via == 'obj' else d
-        out, kind, stage = do_call(c['abbr'], arg, g=g)
+        return None, None
+    di = h['objs'][c['d']] if via == 'obj' else c['d']
+    spec = h['dicts'][di]
+    g = build_global(spec, h)
+    if via == 'reorder':
+        if g is not None and spec.get('@gref') is None:
+            g = reorder(g, c.get('perm', 0))
+        spec = reorder(spec, c.get('perm', 0))
+    d = build_dict(spec, caches, with_cache=(variant == 'cache' and via != 'nocache'))
+    return (mk_config(d, g) if via == 'obj' else d), g
+
+
+def run_single(h, c, variant, pc=None, mode='same'):
+    """one call alone, all arguments freshly built; variant 'cache' (fresh empty cache where the call names one)
+    or 'nocache' (no cache at all).  A stringify call: its governing parse call `pc` first, then ONE write-out
+    (mode 'same'), or expand(abbr of pc, configuration of c) (mode 'expand').  mode 'plain': a call made via
+    'reorder' with the mappings in the order of the history's spec (an equal argument)."""
+    caches = [dict() for _ in range(h.get('ncaches', 0))]
+    op = c.get('op', 'expand')
+    if mode == 'plain':
+        c = dict(c, via='copy')
+    if op == 'stringify':
+        if pc is None:
+            return {'out': ['skipped'], 'kind': '?', 'stage': 0}
+        arg, g = fresh_arg(h, c, caches, variant)
+        if mode == 'expand':
+            out, kind, stage = do_call(pc['abbr'], arg, use_default=(c['via'] == 'default'), g=g)
+            return {'out': out, 'kind': kind, 'stage': stage}
+        trees = {}
+        if pc['via'] == 'obj' and c['via'] == 'obj' and pc['d'] == c['d']:
+            parg, pg = arg, g      # one Config object used for both steps, as in the history
+        else:
+            parg, pg = fresh_arg(h, pc, caches, variant)
+        do_call(pc['abbr'], parg, use_default=(pc['via'] == 'default'), g=pg, op='parse', trees=trees, tree=0)
+        out, kind, stage = do_call('', arg, use_default=(c['via'] == 'default'), g=g, op='stringify', trees=trees, tree=0)
+        return {'out': out, 'kind': kind, 'stage': stage}
+    arg, g = fresh_arg(h, c, caches, variant)
+    out, kind, stage = do_call(c.get('abbr', ''), arg, use_default=(c['via'] == 'default'), g=g, op=op, trees={}, tree=0)
     return {'out': out, 'kind': kind, 'stage': stage}
 
 
@@ -430,20 +534,40 @@ def in_child(fn, *args):
     return json.loads(data) if data else {'worker_error': 'child died without output'}
 
 
+def _names_cache(h, c):
+    return c is not None and c['via'] in ('dict', 'obj', 'copy', 'reorder') and \
+        h['dicts'][h['objs'][c['d']] if c['via'] == 'obj' else c['d']].get('cache') is not None
+
+
 def job(h):
-    out = {'history': in_child(run_history, h), 'fresh': [], 'fresh_nocache': [], 'tables': in_child(run_tables, h)}
+    out = {'history': in_child(run_history, h), 'fresh': [], 'fresh_nocache': [], 'extra': [], 'tables': in_child(run_tables, h)}
     seen = {}
+    parsed = {}   # tree number -> the parse call that governs it at this point of the history
     for c in list(h['calls']) + [h['probe']]:
-        key = json.dumps(c, sort_keys=True)
+        op = c.get('op', 'expand')
+        pc = None
+        if op == 'parse':
+            parsed[c.get('tree')] = c
+        elif op == 'stringify':
+            pc = parsed.get(c.get('tree'))
+        key = json.dumps([c, pc], sort_keys=True)
         if key not in seen:
-            a = in_child(run_single, h, c, 'cache')
-            named = c['via'] in ('dict', 'obj', 'copy') and \
-                h['dicts'][h['objs'][c['d']] if c['via'] == 'obj' else c['d']].get('cache') is not None
+            a = in_child(run_single, h, c, 'cache', pc)
+            named = _names_cache(h, c) or _names_cache(h, pc)
             # without a cache dict the two variants are the same call
-            b = in_child(run_single, h, c, 'nocache') if named else a
-            seen[key] = (a, b)
+            b = in_child(run_single, h, c, 'nocache', pc) if named else a
+            extra = {}
+            if op == 'expand' and c['via'] == 'reorder':
+                # equal arguments: the same call with the mappings in the order of the spec
+                extra['plain'] = in_child(run_single, h, c, 'cache', None, 'plain')
+            if op == 'stringify' and pc is not None and pc['via'] != 'default' and c['via'] != 'default' and \
+                    (h['objs'][pc['d']] if pc['via'] == 'obj' else pc['d']) == (h['objs'][c['d']] if c['via'] == 'obj' else c['d']):
+                # both steps with the same configuration: that is expand(abbr, configuration)
+                extra['expand'] = in_child(run_single, h, c, 'cache', pc, 'expand')
+            seen[key] = (a, b, extra)
         out['fresh'].append(seen[key][0])
         out['fresh_nocache'].append(seen[key][1])
+        out['extra'].append(seen[key][2])
     return out
 
 
@@ -453,7 +577,7 @@ def main():
         # really fresh interpreter: the single call named by the job, no fork
         j = json.loads(sys.stdin.read())
         sys.setrecursionlimit(3000)
-        print(json.dumps(run_single(j['h'], j['call'], j.get('variant', 'cache'))))
+        print(json.dumps(run_single(j['h'], j['call'], j.get('variant', 'cache'), j.get('pc'))))
         return
     for line in sys.stdin:
         line = line.strip()
